@@ -275,6 +275,11 @@ class Interp:
 
     def construct(self, cls, args, kwargs):
         if issubclass(cls, BaseException):
+            init = self.class_lookup(cls, '__init__')
+            if isinstance(init, types.FunctionType) and (init.__module__ or '').startswith('pamqp'):
+                # an exception class of the package with a constructor of its own: whatever that constructor raises
+                # is what the `raise` statement raises
+                self.call(init, [SObj(cls, provenance='fresh')] + list(args), kwargs)
             return SExc(cls, tuple(args))
         obj = SObj(cls, provenance='fresh')
         init = self.class_lookup(cls, '__init__')
@@ -313,6 +318,12 @@ class Interp:
 
     def stmt_Pass(self, s, fr):
         pass
+
+    def stmt_Assert(self, s, fr):
+        # default interpreter mode: a failing assert raises AssertionError (under -O the statement does not exist;
+        # the ground unit env.import-state reports assert statements in the package)
+        if not self.st.truth(self.eval(s.test, fr), 'assert@%d' % s.lineno):
+            raise Raised(AssertionError, (), s.lineno)
 
     def stmt_Global(self, s, fr):
         fr.global_names.update(s.names)
@@ -399,6 +410,7 @@ class Interp:
             raise cur
         e = self.eval(s.exc, fr)
         if isinstance(e, type) and issubclass(e, BaseException):
+            self.construct(e, [], {})          # `raise C` instantiates C()
             raise Raised(e, (), s.lineno)
         if isinstance(e, SExc):
             raise Raised(e.cls, e.args, s.lineno)
